@@ -18,7 +18,8 @@ from . import findings
 from .explore import HarnessError
 
 HERE = os.path.dirname(os.path.dirname(os.path.abspath(__file__)))
-EVID = os.path.join(HERE, "evidence")
+# evidence describes runs against /repo; a run against a scratch copy (VERIF_REPO, used for seeded changes) writes elsewhere
+EVID = os.path.join(HERE, "evidence") if os.environ.get("VERIF_REPO", "/repo") in ("", "/repo") else os.path.join(HERE, "replays", "_scratch_evidence")
 IDS = ["C%02d" % i for i in range(1, 21)]
 MAX_CONFIRM_GROUPS = 12
 
